@@ -172,10 +172,11 @@ class RawV(Model):
     """ndarray / number: an exact rational value (element-wise semantics), a dtype, and an identity (the buffer)"""
     kinds = ("ndarray",)
 
-    def __init__(self, r, dtype="float64", shape=(3,)):
+    def __init__(self, r, dtype="float64", shape=(3,), contiguous=True):
         self.r = rat(r) if not isinstance(r, tuple) else r
         self.dtype = DT(dtype) if isinstance(dtype, str) else dtype
         self.shape = shape
+        self.contiguous = contiguous       # False: a strided view (a[::2], x[:, 0]) - numpy.require / ascontiguousarray COPY it
 
     def _v(self, o):
         if isinstance(o, RawV):
@@ -409,6 +410,8 @@ def stack_hooks(tree):
     for name in ("cumsum", "sum"):
         hk["ext"]["numpy." + name] = AFunc(name, tree, hk)
     hk["ext"]["numpy.issubdtype"] = issubdtype
+    _contig = lambda x, *a, **k: x if not isinstance(x, RawV) or x.contiguous else RawV(x.r, x.dtype, x.shape)
+    hk["ext"]["numpy.require"] = hk["ext"]["numpy.ascontiguousarray"] = _contig
     hk["ext"]["numpy.asarray"] = lambda v, *a, **k: v if isinstance(v, RawV) else RawV(rat(v), "float64" if isinstance(v, float) else "int64", ())
     units = lambda arg: UU.parse(arg) if not isinstance(arg, QQ) else (_ for _ in ()).throw(Raised("TypeError", None, "Cannot create unit from a Quantity"))
     for k in ("units/units.py::units", "__init__.py::units", "units/__init__.py::units"):
@@ -416,10 +419,10 @@ def stack_hooks(tree):
     return hk
 
 
-def arr(tree, hk, sym, unit, dtype="float64", shape=(3,)):
+def arr(tree, hk, sym, unit, dtype="float64", shape=(3,), contiguous=True):
     ci = tree.cls(ARRAY_Q)
     ev = ModelEval(tree, tree.method(ci, "__init__"), {}, hk)
-    return ev.instantiate(ci, [], {"values": RawV(Poly.sym(sym), dtype, shape) if isinstance(sym, str) else sym, "unit": unit}, None)
+    return ev.instantiate(ci, [], {"values": RawV(Poly.sym(sym), dtype, shape, contiguous) if isinstance(sym, str) else sym, "unit": unit}, None)
 
 
 def vec(tree, hk, tag, unit, n=3):
@@ -444,12 +447,12 @@ def check_inplace_stack(run, tree):
     A, B = rat(Poly.sym("A")), rat(Poly.sym("B"))
     km, kcm, ks = (rat(Poly.sym("k_" + x)) for x in ("m", "cm", "s"))
     OPS = (("+=", "__iadd__", "cm", lambda pa, pb: pa + pb), ("-=", "__isub__", "cm", lambda pa, pb: pa - pb), ("*=", "__imul__", "s", lambda pa, pb: pa * pb), ("/=", "__itruediv__", "s", lambda pa, pb: pa / pb))
-    for shape, sl in (((3,), "1-d"), ((), "0-d (scalar)"), ((0,), "empty"), ((2, 3), "2-d")):
+    for shape, sl in (((3,), "1-d"), ((), "0-d (scalar)"), ((0,), "empty"), ((2, 3), "2-d"), ((3,), "a strided view (x[::2])")):
         for sym, dunder, ub, want in OPS:
             construct = "core/array.py::Array[a [m] %s b [%s]; a is %s]" % (sym, ub, sl)
             try:
                 hk = stack_hooks(tree)
-                a, b = arr(tree, hk, "A", "m", shape=shape), arr(tree, hk, "B", ub, shape=shape)
+                a, b = arr(tree, hk, "A", "m", shape=shape, contiguous="strided" not in sl), arr(tree, hk, "B", ub, shape=shape)
                 buf, pa, pb = a._attrs["_array"], phys(a), phys(b)
                 try:
                     r = binop(tree, hk, a, dunder, b)
